@@ -43,8 +43,10 @@ const (
 )
 
 type c02Step struct {
-	K string `json:"k"`           // H set header, S WriteHeader, W one Write, B one Write of exactly N bytes, M many Writes, Z sleep, C wait ctx.Done, P panic, R read the request body slowly
-	N int    `json:"n,omitempty"` // H: kind of key/value (c02HdrVals), P: kind of panic value (c02PanicKinds), B: bytes, // S: status, W: chunk repetitions in the one Write (~9 B each), M: number of one-chunk Writes, Z: ticks, R: ticks slept after every 16 body bytes read
+	K string `json:"k"` // H set header, S WriteHeader, W one Write, B one Write of exactly N bytes, M many Writes, Z sleep, C wait ctx.Done, P panic, R read the request body slowly,
+	// I informational response (WriteHeader 100/102/103), F w.(http.Flusher).Flush() if w is one, RF / RH / RD =
+	// http.NewResponseController(w).Flush() / .Hijack() / .SetWriteDeadline+SetReadDeadline (errors ignored)
+	N int `json:"n,omitempty"` // H: kind of key/value (c02HdrVals), P: kind of panic value (c02PanicKinds), B: bytes, // S: status, W: chunk repetitions in the one Write (~9 B each), M: number of one-chunk Writes, Z: ticks, R: ticks slept after every 16 body bytes read
 }
 
 type c02Req struct {
@@ -217,6 +219,9 @@ type c02Plan struct {
 	panics     bool
 	reads      bool              // the handler reads the request body
 	readAcross bool              // ... and is in the middle of doing so when the deadline fires
+	guard      bool              // the timeout guard stands between the handler and the client (buffering writer)
+	info       bool              // the handler sends informational responses first
+	ctl        bool              // the handler uses Flush / ResponseController
 	bypass     bool              // "Upgrade: websocket": the timeout guard steps aside (hijack path, outside the statement)
 	big        bool              // the handler's body is larger than 1 KB
 	badStatus  bool              // the panic is raised inside WriteHeader by an out-of-range status code
@@ -312,6 +317,7 @@ func c02MakePlan(c c02Case, id int, q c02Req) c02Plan {
 	p := c02Plan{d: -1, hdr: map[string]string{}, code: http.StatusOK}
 	t := c.timeoutTicks(q.Sv, q.Rt)
 	p.bypass = q.Up == "websocket" && t > 0
+	p.guard = t > 0 && !p.bypass
 	// instant at which the handler's context is done: route timeout, a deadline the
 	// request's own context carries, client cancel — whichever comes first
 	ctxDone := -1
@@ -350,6 +356,20 @@ loop:
 				p.hdr[c02HdrKey(id, i)] = strings.Join(c02HdrVals(id, i, s.N), ",")
 				wrote()
 			}
+		case "I":
+			// informational: says nothing about the final response (its own delivery is not judged)
+			p.info = true
+		case "F", "RF":
+			p.ctl = true
+			if !p.guard {
+				// straight to the client's writer: a flush commits what there is (implicit 200).
+				// Behind the guard the writer is a buffer that is neither a Flusher nor unwrappable:
+				// the call cannot reach the client and changes nothing.
+				p.commit = true
+				wrote()
+			}
+		case "RH", "RD":
+			p.ctl = true // not supported by any writer of the chain in front of this client: no effect
 		case "S":
 			if c02BadStatus(s.N) {
 				// net/http (and every writer wrapping it) panics inside WriteHeader on such a
@@ -415,9 +435,24 @@ type c02Rec struct {
 	snap    http.Header // headers as committed with the status line
 	code    int
 	body    []byte
-	whCalls int
+	whCalls int   // WriteHeader calls with a final status
+	info    []int // informational statuses (1xx) sent before the final one
+	flushes int   // Flush calls that reached the client side
 	closed  bool
 	late    []string
+}
+
+// Flush makes the recording client an http.Flusher, like net/http's writer: a flush
+// commits the response (implicit 200 with the headers set so far).
+func (r *c02Rec) Flush() {
+	r.mu.Lock()
+	defer r.mu.Unlock()
+	if r.closed {
+		r.late = append(r.late, "Flush()")
+		return
+	}
+	r.flushes++
+	r.commitLocked(http.StatusOK)
 }
 
 func (r *c02Rec) Header() http.Header { return r.hdr }
@@ -437,6 +472,12 @@ func (r *c02Rec) WriteHeader(code int) {
 	defer r.mu.Unlock()
 	if r.closed {
 		r.late = append(r.late, fmt.Sprintf("WriteHeader(%d)", code))
+		return
+	}
+	if code >= 100 && code <= 199 && code != http.StatusSwitchingProtocols {
+		if r.snap == nil {
+			r.info = append(r.info, code) // net/http sends it at once and waits for the final status
+		}
 		return
 	}
 	r.whCalls++
@@ -499,6 +540,7 @@ type c02Obs struct {
 	escaped  string
 	entered  int32
 	exited   int32
+	hijacked int32
 	closeHdr http.Header
 }
 
@@ -623,6 +665,14 @@ func c02Valid(c c02Case) bool {
 					if s.N < 0 || q.BB {
 						return false // a body that never delivers cannot be read to its end
 					}
+				case "I":
+					if s.N != 100 && s.N != 102 && s.N != 103 {
+						return false
+					}
+					seenWrite = true // keep header steps in front of everything that can send headers
+				case "F", "RF":
+					seenWrite = true
+				case "RH", "RD":
 				case "C":
 				case "P":
 					if s.N < 0 || s.N >= len(c02PanicKinds) {
@@ -693,8 +743,24 @@ func c02Run(t *testing.T, c c02Case, build c02Builder, leakExpected bool) (v kit
 				switch s.K {
 				case "H":
 					c02SetHeader(w.Header(), id, i, s.N)
-				case "S":
+				case "S", "I":
 					w.WriteHeader(s.N)
+				case "F":
+					if fl, ok := w.(http.Flusher); ok {
+						fl.Flush()
+					}
+				case "RF":
+					_ = http.NewResponseController(w).Flush()
+				case "RH":
+					if conn, _, err := http.NewResponseController(w).Hijack(); err == nil && conn != nil {
+						atomic.AddInt32(&o.hijacked, 1)
+						conn.Close()
+						return
+					}
+				case "RD":
+					rc := http.NewResponseController(w)
+					_ = rc.SetWriteDeadline(time.Now().Add(time.Hour))
+					_ = rc.SetReadDeadline(time.Now().Add(time.Hour))
 				case "W":
 					w.Write(c02Chunk(id, i, s.N))
 				case "B":
@@ -807,7 +873,11 @@ func c02Run(t *testing.T, c c02Case, build c02Builder, leakExpected bool) (v kit
 	} else if res.Hang || res.Panic != "" || (res.Leak && !leakExpected) {
 		fail = "bubble: " + res.String()
 	} else {
-		fail = c02Judge(c, flat, obs, maxCur, cls)
+		known := ""
+		fail = c02Judge(c, flat, obs, maxCur, cls, &known)
+		if fail != "" {
+			v.Known = known
+		}
 	}
 	v.Fail = fail
 	v.NonTrivial = cls["write-straddles-deadline"] || cls["panic"] || cls["latch-full-arrival"]
@@ -908,7 +978,13 @@ func c02SweepClasses(c c02Case, q c02Req, p c02Plan, t, mb int, cls map[string]b
 	}
 }
 
-func c02Judge(c c02Case, flat []c02Flat, obs []*c02Obs, maxCur []int32, cls map[string]bool) string {
+// Repaired finding timeout-guard-takes-1xx-as-final-status (FINDINGS.md, /repo f1e5d0a):
+// behind the timeout guard an informational WriteHeader (100/102/103) was recorded by
+// timeoutWriter as THE status; the handler's real status (or the recover guard's 500)
+// was then "superfluous" and the client received 200. The class label below shows that
+// the trigger is generated; nothing is tolerated any more.
+
+func c02Judge(c c02Case, flat []c02Flat, obs []*c02Obs, maxCur []int32, cls map[string]bool, known *string) string {
 	type admitted struct{ leaveUS int64 }
 	latch := make([][]admitted, c.slots())
 	behaved := make([]bool, c.slots())
@@ -922,6 +998,15 @@ func c02Judge(c c02Case, flat []c02Flat, obs []*c02Obs, maxCur []int32, cls map[
 	cls[[]string{"httpx-globals:none", "httpx-globals:SetErrorHandler", "httpx-globals:SetErrorHandlerCtx"}[c.EH]] = true
 	for _, fl := range flat { // ascending arrival instant
 		o, q, p := obs[fl.id], fl.q, fl.plan
+		*known = ""
+		if final := p.code; p.guard && p.info {
+			if p.panics && !p.commit {
+				final = http.StatusInternalServerError
+			}
+			if final != http.StatusOK {
+				cls["informational-1xx-first+behind-guard+non-200-final"] = true
+			}
+		}
 		if c.V && q.GZ && p.d == 0 {
 			// the trigger of the repaired defect 68a92bc (log dump vs. gunzip's body read), see FINDINGS.md
 			cls["gzip-body+cancel-at-arrival+verbose"] = true
@@ -1064,7 +1149,28 @@ func c02Judge(c c02Case, flat []c02Flat, obs []*c02Obs, maxCur []int32, cls map[
 			}
 			continue
 		}
-		if t > 0 && !p.bypass && o.rec.whCalls != 1 {
+		if o.hijacked != 0 {
+			return fmt.Sprintf("%s: the handler could hijack the connection through http.ResponseController", who)
+		}
+		if p.guard && o.rec.flushes != 0 {
+			return fmt.Sprintf("%s: %d Flush calls reached the client while the timeout guard stood between handler and client (the response is committed before the guard releases it); got %s", who, o.rec.flushes, got)
+		}
+		if p.info {
+			cls["informational-1xx-first"] = true
+			if !p.guard {
+				cls["informational-1xx-first+guard-off-or-bypassed"] = true
+				if p.panics || p.code != http.StatusOK {
+					cls["informational-1xx-first+guard-off-or-bypassed+non-200-or-panic"] = true
+				}
+			}
+		}
+		if p.ctl {
+			cls["flush/response-controller"] = true
+			if p.guard {
+				cls["flush/response-controller-behind-guard"] = true
+			}
+		}
+		if t > 0 && !p.bypass && !p.info && o.rec.whCalls != 1 { // (an informational status may take the guard's one WriteHeader; the final status is judged below)
 			return fmt.Sprintf("%s: %d WriteHeader calls reached the client, want exactly one response; got %s", who, o.rec.whCalls, got)
 		}
 
@@ -1199,6 +1305,7 @@ func c02Judge(c c02Case, flat []c02Flat, obs []*c02Obs, maxCur []int32, cls map[
 			}
 		}
 	}
+	*known = ""
 	for sl := 0; sl < c.slots(); sl++ {
 		mc := c.mc(sl / len(c.R))
 		if mc == 0 {
@@ -1407,13 +1514,17 @@ func c02GenProg(rt *rapid.T, t int, canWait, instant, benign bool, readable int)
 	n := rapid.IntRange(0, 7).Draw(rt, "steps")
 	var p []c02Step
 	wrote := false
+	infos, flushed := 0, false
 	elapsed := 0
 	for i := 0; i < n; i++ {
-		kinds := []string{"S", "W", "W", "W", "B"}
+		kinds := []string{"S", "W", "W", "W", "B", "F", "RF", "RH", "RD"}
+		if !wrote && !flushed && infos < 2 {
+			kinds = append(kinds, "I", "I")
+		}
 		if !instant {
 			kinds = append(kinds, "Z", "Z", "Z")
 		}
-		if !wrote {
+		if !wrote && !flushed && infos == 0 {
 			kinds = append(kinds, "H", "H")
 		}
 		if canWait && !instant {
@@ -1432,6 +1543,12 @@ func c02GenProg(rt *rapid.T, t int, canWait, instant, benign bool, readable int)
 				hk = rapid.IntRange(1, len(c02HdrKinds)-1).Draw(rt, "hk")
 			}
 			p = append(p, c02Step{K: "H", N: hk})
+		case "I":
+			infos++
+			p = append(p, c02Step{K: "I", N: rapid.SampledFrom([]int{100, 102, 103, 103}).Draw(rt, "info")})
+		case "F", "RF", "RH", "RD":
+			p = append(p, c02Step{K: k})
+			flushed = flushed || k == "F" || k == "RF"
 		case "B":
 			bn := rapid.SampledFrom([]int{0, 1, 7, 255, 256, 257, 4095, 4096, 4097}).Draw(rt, "bytes")
 			switch rapid.IntRange(0, 19).Draw(rt, "bsize") {
